@@ -23,6 +23,8 @@ def main(argv=None):
     s = sub.add_parser('selftest')
     s.add_argument('property', nargs='?')
     s.add_argument('--jobs', type=int, default=16)
+    sd = sub.add_parser('seeded')
+    sd.add_argument('patch', nargs='?')
     a = ap.parse_args(argv)
     from . import SRC
     from . import engine
@@ -48,6 +50,9 @@ def main(argv=None):
         for p in sorted(engine.PROPERTY_RULES):
             print(p, ' '.join(engine.PROPERTY_RULES[p]))
         return 0
+    if a.cmd == 'seeded':
+        from . import seeded
+        return seeded.main([a.patch] if a.patch else [])
     if a.cmd == 'selftest':
         from . import selftest
         return selftest.run(a.property, seed=seed, jobs=a.jobs)
